@@ -133,7 +133,7 @@ package flowcontrol
 //@   modifies c.bytesSent, c.sendWindow, c.lastBlockedAt
 
 //@ func (c *streamFlowController) UpdateHighestReceived
-//@   props C03 C04
+//@   props C03 C04 C12
 //@   requires c.sInv() && 0 <= offset && offset <= MaxBC
 //@   let conn = dyn(c.connection, *connectionFlowController)
 //@   requires conn.highestReceived + offset <= MaxBC
